@@ -31,7 +31,7 @@ pub static PROP: Prop = Prop {
         "sign convention: stepping a clock by s adds s to its offset estimate; raising its frequency setting by d adds d to its frequency estimate",
     ],
     profiles: Profiles::Both,
-    cases: |t| t.pick(3_000, 200_000),
+    cases: |t| t.pick(30_000, 600_000),
     budget_s: |t| t.pick(30, 300),
     run,
     min_nontrivial: 30,
@@ -341,8 +341,17 @@ fn run(c: &mut Case) {
                             if let Ok(po) = &post_o {
                                 let want = pre_o.value + seconds;
                                 if !close(po.value, want, *seconds) {
+                                    // Duration saturates at +-2^63 s: an absurdly large step is applied truncated
+                                    let saturated = seconds.abs() >= 9.2e18;
+                                    if saturated {
+                                        c.inc("saturated_steps");
+                                    }
                                     c.violation(
-                                        if ci == 0 { "offset-estimate-after-step/system-clock" } else { "offset-estimate-after-step/other-clock" },
+                                        match (saturated, ci == 0) {
+                                            (true, _) => "offset-estimate-after-step/saturated-step",
+                                            (false, true) => "offset-estimate-after-step/system-clock",
+                                            (false, false) => "offset-estimate-after-step/other-clock",
+                                        },
                                         format!(
                                             "the clock was stepped by {seconds:e} s; the offset estimate went from {:e} to {:e}, expected {want:e}",
                                             pre_o.value, po.value
